@@ -38,5 +38,19 @@ CHECKS['C11'] = dict(
          'find_or_extend, LZMA header and rejection of unrepresentable values are bounded stand-ins on the sample BSP.',
     note='trusted: bytes.index summary, struct/lzma modules, pyvc encoding; the sample BSP has no faces/edges/'
          'physics data, so nodes/leafs/faces/bmodels cross references are not exercised by the bounded tier.')
+CHECKS['C10'] = dict(
+    category='other',
+    technique='contract-based deductive verification: pyvc proof of the ParsedLump get/set protocol + syntactic '
+              'effect/ordering obligations for every lump reader and writer; bounded access-subset stand-in',
+    text='ParsedLump.__get__/__set__ are proved against the lazy-view contract (cached value returned with no effect; '
+         'first access parses the raw data once, caches, empties exactly the view\'s own lumps). For all 21 views the '
+         'frame obligations that make access order irrelevant are decided on the AST: each writer takes its value from '
+         'its argument, reads only views rebuilt later in LUMP_REBUILD_ORDER, reassigns every secondary lump it owns '
+         'and no foreign one; each reader reads raw data only of its own lumps or of lumps no view clears. The '
+         'byte-level statement (unparsed lumps identical, parsed views equal, second save idempotent) is a bounded '
+         'stand-in over the empty set, all single views, sampled ordered pairs and seeded larger subsets on the sample '
+         'BSP and an enriched copy - not counted as proved.',
+    note='trusted: AST effect analysis follows self.<helper>() calls one level; zipfile/lzma; only one BSP layout '
+         '(the sample file) is exercised by the bounded tier; BSP.read/save header arithmetic is bounded-only.')
 _PENDING = 'not yet built in this session (planned, see DESIGN.md section 3); no check is registered so nothing is claimed'
 NOT_APPLICABLE = {f'C{i:02d}': _PENDING for i in range(1, 21) if f'C{i:02d}' not in CHECKS}
